@@ -65,6 +65,40 @@ class HostileEq(object):
         return 'HostileEq(%s)' % ', '.join('%s=%r' % kv for kv in sorted(self.__dict__.items()))
 
 
+class PriceTable(object):
+    """A service class with its own jsonpickle handler (the documented way to teach jsonpickle about a class). Like many handlers in
+    the wild it puts an attribute that already is json - a list of lists of numbers - into the flattened data as it is, and takes it
+    back as it is."""
+
+    def __init__(self, rows, name='prices'):
+        self.rows = rows
+        self.name = name
+
+    def __repr__(self):
+        return 'PriceTable(%r, %r)' % (self.rows, self.name)
+
+
+def _register_price_table_handler():
+    import jsonpickle.handlers
+
+    @jsonpickle.handlers.register(PriceTable)
+    class PriceTableHandler(jsonpickle.handlers.BaseHandler):
+        def flatten(self, obj, data):
+            data['rows'] = obj.rows
+            data['name'] = obj.name
+            return data
+
+        def restore(self, data):
+            table = PriceTable.__new__(PriceTable)
+            table.rows = data['rows']
+            table.name = data['name']
+            return table
+    return PriceTableHandler
+
+
+_register_price_table_handler()
+
+
 def owner_only_repr(self):
     """__repr__/__str__ of a service object that only its owner can print (a lazy proxy whose backend is gone, a row of a closed
     session): it raises for the framework and for the logging module, which have no business printing service values."""
